@@ -1,14 +1,44 @@
-//! lv-types: checks that need only celestia-types (C01–C08, C11–C15, C42, C46, C47, types half of C16).
+//! lv-types: dispatcher. One module per property; each exposes `pub fn run(ctx: &mut Ctx)`.
 use lv_common::{Ctx, parse_args};
 
+mod c01;
+mod c02;
+mod c03;
 mod c04;
+mod c05;
+mod c06;
+mod c07;
+mod c08;
+mod c11;
+mod c12;
+mod c13;
+mod c14;
+mod c15;
+mod c42;
+mod c46;
+mod c47;
 
 fn main() {
     let args = parse_args();
     let level = "exploration";
     let mut ctx = Ctx::from_args(&args, level);
     match args.prop.as_str() {
+        "C01" => c01::run(&mut ctx),
+        "C02" => c02::run(&mut ctx),
+        "C03" => c03::run(&mut ctx),
         "C04" => c04::run(&mut ctx),
+        "C05" => c05::run(&mut ctx),
+        "C06" => c06::run(&mut ctx),
+        "C07" => c07::run(&mut ctx),
+        "C08" => c08::run(&mut ctx),
+        "C11" => c11::run(&mut ctx),
+        "C12" => c12::run(&mut ctx),
+        "C13" => c13::run(&mut ctx),
+        "C14" => c14::run(&mut ctx),
+        "C15" => c15::run(&mut ctx),
+        "C42" => c42::run(&mut ctx),
+        "C46" => c46::run(&mut ctx),
+        "C47" => c47::run(&mut ctx),
         other => {
             eprintln!("lv-types: unknown property {other}");
             std::process::exit(2);
